@@ -40,7 +40,9 @@ LEVEL_NOTE = ("Trusted: Lean kernel; Model/MdsCodec+MdsConv+MdsFile (byte-exact 
               "without loop point / drum-mode switch, drum-mode switches outside loops, routine tracks = timeless commands before the first note, loop section ending in the drum state it "
               "starts in, no pitch envelope, platform commands agreeing between converter and timeline (PlatAgree), acceptance by the constructor). Still decided per case by the "
               "oracle: pitch envelopes, exotic platform `cmd` opcodes, optimised songs (D2), acceptance (that the converter accepts every encodable song). Known: D2, D24 (loop point in a called channel track), "
-              "D27 (drum mode decided in text order by the writer, in execution order by the driver).")
+              "D27 (drum mode decided in text order by the writer, in execution order by the driver). The oracle's domain (skip otherwise): Timeline.inDomain and, since repo fix b6d6699 "
+              "(the converter refuses a drum routine whose ending note is inside a '[]' loop: err:drumNoteInLoop), Fragment.routineNotesOutsideLoops (every routine the "
+              "specification calls, execution order, has its first note outside loops); the model must refuse exactly the same songs (correspondence).")
 RULE = ("IR songs in the encodable domain from the song grammar (1..4 channel tracks, subroutines, drum routines, loops with breaks, loop point at depth 0, commands, platform commands, "
         "instruments) + adjacency sweep: ordered triples over {explicit note, implicit-length note, tie, rest<128, rest>=128, rest=last rest, command, SEGNO, LP, LPB, LPF, PAT} x durations "
         "{1,2,127,128,129,256,65535}; non-trivial = has loop/call/segno/long duration; distinct by request text")
@@ -78,6 +80,8 @@ CORPUS = [
     "conv T0:4.0.0.0,2.36.24.0,26.1.0.0,6.2.0.0 T36:13.7.0.0,2.40.1.0,2.41.1.0",  # D27 (known): drum mode switched on inside a loop
     "conv T0:8.100.0.0,2.36.2.2 T100:2.36.1.1,26.1.0.0 T36:13.7.0.0,2.40.1.0",      # D27 (known): a subroutine switches drum mode for its caller
     "conv T0:26.1.0.0,8.100.0.0,26.0.0.0 T100:2.36.1.1 T36:13.7.0.0,2.40.1.0",     # a subroutine called in drum mode is written in drum mode
+    "conv T0:26.1.0.0,2.32.24.0,26.0.0.0 T32:4.0.0.0,2.40.1.0,6.2.0.0",             # the routine's note inside a loop: refused (repo fix b6d6699), outside the domain
+    "conv T0:26.1.0.0,2.32.24.0,26.0.0.0 T32:4.0.0.0,13.5.0.0,6.2.0.0,2.40.1.0",    # a loop before the routine's note: fine
 ]
 
 DURS = [1, 2, 127, 128, 129, 256, 65535]
@@ -197,10 +201,18 @@ def _cases_orig(rng, tier):
             # and zero-length routine notes every drum case was skipped by the judge)
             song[80] = [g.ev("VOL", 7), g.ev("NOTE", 40, 1, 0)]
             song[81] = [g.ev("PAN", 1), g.ev("LOOP_START"), g.ev("VOL_REL", 1), g.ev("LOOP_END", 2), g.ev("NOTE", 41, 1, 0)]
+            # one drum case in ten has a routine whose note is inside a '[]' loop: refused by the converter since
+            # repo fix b6d6699 (err:drumNoteInLoop) -- outside the encodable domain (skipped by the judge), but the
+            # model has to refuse exactly the same songs
+            rids = [80, 81]
+            if rng.random() < 0.1:
+                song[82] = [g.ev("VOL", 3), g.ev("LOOP_START"), g.ev("NOTE", 42, 1, 0), g.ev("LOOP_END", 2)]
+                rids = [80, 81, 82]
+                tags.add("drum-note-in-loop")
             evs = []
             for e in song[0]:
                 if e[0] == T["NOTE"]:
-                    e = (e[0], rng.choice([80, 81]), e[2], e[3])
+                    e = (e[0], rng.choice(rids), e[2], e[3])
                 evs.append(e)
             # drum mode is switched on behind the loop point (so that the replayed section starts in the state it was
             # written in); one case in five switches it on at the start of the track: with a loop point that is D27
@@ -413,6 +425,10 @@ def finding_key(case, impl, judge):
         m = re.search(r"(\w+\.cpp:\d+)", impl)
         return "crash:" + (m.group(1) if m else "unknown")
     if "rejected" in judge:
+        # refused for a routine note inside a loop although no drum note of the song (execution order) calls such a
+        # routine: the writer took a plain note for a drum note (text order), which is D27
+        if impl.startswith("err:drumNoteInLoop") and case.req.startswith("conv ") and drum_dynamic(case.req):
+            return "drum-mode-dynamic"
         return "rejects-encodable:" + impl.split(" ")[0][:40]
     if case.req.startswith("convo"):
         # an optimised song whose folded loop count does not fit the one-byte LPF operand
